@@ -145,7 +145,14 @@ def h_single(hx, docname, tid):
     docid = getattr(MBXMLDocumentIdentifier, docname)
     cfg = elements_of(docid)
     tb, val, attrs = token_value(hx, cfg, tid, "v")
-    table = None if docid.value[1] else hx.bytes(hx.pick("tlen", [0, 3]), "cdt")
+    lens = [0, 3]
+    if not docid.value[1] and tid == 0x22:
+        # an inline table as long as the document type's standard table, symbolic content: the standard table itself is one of its values
+        # (a parser that treats an inline table equal to the standard one differently shows here)
+        st_, std = hx.guard(MBXML.build_constants_table, docid)
+        if st_ == "ok" and len(std) not in lens:
+            lens.append(len(std))
+    table = None if docid.value[1] else hx.bytes(hx.pick("tlen", lens), "cdt")
     x = wrap(docid, tb, table)
     check_docs(hx, x, [(docid, [(tid, val, attrs)], table, x)], "%s, token 0x%02x" % (docname, tid))
     hx.cover("single")
@@ -210,6 +217,12 @@ def h_api(hx, docname, tid, is_request):
     cfg = elements_of(docid)
     t = cfg[tid]
     _tb, val, attrs = token_value(hx, cfg, tid, "v")
+    # "obtained through the token lookup API" in a process that has parsed other documents before: a document of the opposite kind
+    # (request <-> report) is parsed first; look-ups must not depend on it
+    other = MBXMLDocumentIdentifier.LRRP_ImmediateLocationReport_NCDT if is_request else MBXMLDocumentIdentifier.LRRP_TriggeredLocationRequest_NCDT
+    ocfg = elements_of(other)
+    ob, _ov, _oa = token_value(hx, ocfg, 0x22, "prior")
+    hx.guard(MBXML.from_bytes, wrap(other, ob))
     doc = LRRP(document_id=docid)
     st, tok = hx.guard(doc.get_token, tid, val, {}, is_request)
     hx.prove(st == "ok", "%s: get_token(0x%02x) finds the token (%s)" % (docname, tid, tok if st == "exc" else ""))
